@@ -1,5 +1,83 @@
-import Driver.Proto
+import Driver.Framing
 namespace DriverC06
-/-- stub: property not yet claimed -/
-def handle (_case _obs : List String) : String × String := ("unclaimed", "fail:unclaimed")
+open Proto Framing DriverFraming
+
+/-- messages before the first source error / oversized message, and the expected final code -/
+def okPrefix (c : EncCase) : List Bytes × Option Nat :=
+  let rec go : List (SrcEv Bytes) → List Bytes × Option Nat
+    | [] => ([], none)
+    | .pending :: r => go r
+    | .err st :: _ => ([], some st.code)
+    | .item m :: r =>
+      let p := if c.cfg.comp.isSome then (tableCodec c.tab).cz .gzip m else m
+      let over : Bool := match c.cfg.maxSize with | some l => decide (p.length > l) | none => false
+      if over then ([], some 11) else
+      let (ms, e) := go r
+      (m :: ms, e)
+  go c.evs
+
+def firstStatus : List String → Option String
+  | [] => none
+  | t :: r => if tokKind t = 't' ∨ tokKind t = 'e' then some t else firstStatus r
+
+def beforeStatus : List String → List String
+  | [] => []
+  | t :: r => if tokKind t = 't' ∨ tokKind t = 'e' then [] else t :: beforeStatus r
+
+def codeOfTok (t : String) : Option Nat := (((t.drop 1).toString.splitOn ":").head?).bind String.toNat?
+
+/-- C06 verdict.  enc: every message before the first oversized one / source error is delivered,
+in order, ahead of the status, whose code is OUT_OF_RANGE for an oversized message; nothing of
+the oversized message is sent.  dec: frames are accepted iff payload length ≤ limit; the first
+oversized one yields OUT_OF_RANGE (even when only its 5-byte prefix has arrived). -/
+def handle (case obs : List String) : String × String :=
+  match model case with
+  | none => bad
+  | some m =>
+    let v := match case with
+      | "enc" :: _ =>
+        match parseEncCase case with
+        | none => "fail:bad-case"
+        | some c =>
+          let (ms, e) := okPrefix c
+          let flag : UInt8 := if c.cfg.comp.isSome then 1 else 0
+          let expected := Spec.Framing.frames (ms.map (fun it =>
+            (flag, if c.cfg.comp.isSome then (tableCodec c.tab).cz .gzip it else it)))
+          let delivered := (obsData (beforeStatus obs)).flatten
+          let st := firstStatus obs
+          let expCode : Option Nat := match e with | some k => some k | none => if c.cfg.server then some 0 else none
+          verdict [("no-panic", !obs.any isBad),
+                   ("earlier-messages-delivered-before-status", delivered == expected),
+                   ("status-code", (st.bind codeOfTok) == expCode),
+                   ("nothing-sent-after-status", e.isNone || c.cfg.server == false ||
+                       (obsData obs).flatten == expected)]
+      | "dec" :: _ =>
+        match parseDecCase case with
+        | none => "fail:bad-case"
+        | some c =>
+          -- walk headers only (an oversized declared length need not be followed by a payload):
+          -- the frames before the first oversized / incomplete one, and whether one is oversized
+          let limit := c.cfg.maxSize.getD (4 * 1024 * 1024)
+          let rec walk (fuel : Nat) (bs : Bytes) : List (UInt8 × Bytes) × Bool :=
+            match fuel, bs with
+            | fuel + 1, f :: a :: b :: cc :: d :: rest =>
+              let len := Spec.Framing.be32 a b cc d
+              if len > limit then ([], true)
+              else if len ≤ rest.length then
+                let (fs, o) := walk fuel (rest.drop len)
+                ((f, rest.take len) :: fs, o)
+              else ([], false)
+            | _, _ => ([], false)
+          let (frs, over) := walk ((dataOf c.evs).length + 1) (dataOf c.evs)
+          let within := frs.filterMap (payloadMsg c.tab)
+          let allValid := within.length == frs.length
+              && frs.all (fun fp => fp.1 == 0 || c.cfg.enc.isSome)
+              && within.all (fun m => m.head? != some 255)
+          let st := firstStatus obs
+          if !allValid then verdict [("no-panic", !obs.any isBad)]
+          else verdict [("no-panic", !obs.any isBad),
+                   ("accepted-iff-within-limit", obsMsgs (beforeStatus obs) == within),
+                   ("oversized-refused-with-out-of-range", !over || st == some "e11:tooLargeDec")]
+      | _ => "fail:bad-case"
+    (m, v)
 end DriverC06
